@@ -16,6 +16,10 @@
 (*   D6  empty parts: calls, argument references, links whose arguments are   *)
 (*       all / partly empty (or blank-only), in every block context, inline   *)
 (*       wrapper and outer block                                              *)
+(*   D7  ADJACENCY: ordered pairs / triples of block kinds x the separator    *)
+(*       between them (line break only, blank lines, a line of blanks, a      *)
+(*       comment line), in five contexts; the tree comes from the block       *)
+(*       reader ReadEls; Seams (SpecS) applies it to the emitted text         *)
 EXTENDS Unparse, Json
 
 CONSTANTS Depth, Part, Parts
